@@ -570,6 +570,22 @@ class Fuzz:
             if ctx.out_of_time():
                 break
 
+        # ---- a well-formed file under hostile file names
+        for fname in ('???', '..', '.mp4', 'a/b.mp4', '../../x.mp4', ' .mp4', 'x' * 300 + '.mp4', 'é中.mp4', 'con.mp4',
+                      'a b.mp4', 'a%00b.mp4', 'UPPER.MP4', 'noext', 'two.dots.mp4', '-.mp4', ''):
+            if (hash(fname) + ctx.shard) % 4 and ctx.tier == 'quick':
+                continue
+            rp = {'b': {'upload': f'file-name:{fname!r}'}}
+            res.count('b.hostile_name_uploads')
+            r = self._guarded(lambda: execute(media, h2, op_upload(sid, fname, whole)), 'upload', rp)
+            if r is None:
+                continue
+            res.case(f'B|upload-name|{fname[:12]!r}|{r.status_code}')
+            mfid = (r.get_json(silent=True) or {}).get('pk')
+            if mfid is not None:
+                self._guarded(lambda: execute(media, h2, op_index(mfid)), 'index', rp)
+                for url in (f'/stream/{sid}', f'/dash/vod/fz{ctx.shard}/hand_made.mpd', f'/stream/{sid}/{mfid}'):
+                    self.request('GET', url, 'b', f'after upload named {fname!r}', rp, client=media.client)
         # ---- well-formed files whose structure differs from every fixture: upload -> index -> serve
         from dlv import synth
         variants = sorted(synth.legal_variants().items())
